@@ -19,9 +19,11 @@
 // Syntax (no blanks inside one type):
 //   <st>  = bool | int | float | str
 //   <sp>  = <st> | ~name | ~name<st|st..>
-//   <ct>  = TS[st] | TSS[st] | TSL[ct,n] | TSD[st,ct] | TSW[st,p,m] | TSB[f:ct,..] | REF[ct] | SIGNAL
+//   <ct>  = TS[st] | TSS[st] | TSL[ct,n] | TSD[st,ct] | TSW[st,p,m] | TSB[f:ct,..] | TSB<name>[f:ct,..] | REF[ct] | SIGNAL
 //   <tp>  = ~name | ~name<ct|ct..> | =<ct> | TS[sp] | TSS[sp] | TSL[tp,n] | TSL[tp,~N] | TSL[tp,~N<n|n..>]
-//         | TSD[sp,tp] | TSW[sp,p,m] | TSW[sp,*] | TSB[f:tp,..] | TSB[~S] | REF[tp] | SIGNAL
+//         | TSD[sp,tp] | TSW[sp,p,m] | TSW[sp,*] | TSB[f:tp,..] | TSB<name>[f:tp,..] | TSB[~S] | REF[tp] | SIGNAL
+//   TSB<name>[..] is a NAMED bundle (schema) / a named field-listing bundle pattern; the Lean model has no named
+//   bundles, so these lines are only used on the monitor-only stream of tools/props/c19.py
 #include "hgv_common.h"
 
 #include <hgraph/types/graph_wiring.h>
@@ -149,6 +151,24 @@ namespace
             c.expect(']');
             return reg.tsw(s, p, m);
         }
+        if (c.eat("TSB<"))
+        {
+            // a NAMED bundle: TypeRegistry::tsb(name, fields).  The name space is process-global (one name, one
+            // field list); a conflicting re-declaration makes the registry throw, reported as a bad line.
+            std::string name = c.ident();
+            c.expect('>');
+            c.expect('[');
+            std::vector<std::pair<std::string, const TSValueTypeMetaData *>> fields;
+            do
+            {
+                std::string f = c.ident();
+                c.expect(':');
+                fields.emplace_back(f, parse_ct(c));
+            } while (c.eat(','));
+            c.expect(']');
+            try { return reg.tsb(name, fields); }
+            catch (const std::invalid_argument &e) { throw ParseError(std::string("named bundle: ") + e.what()); }
+        }
         if (c.eat("TSB["))
         {
             std::vector<std::pair<std::string, const TSValueTypeMetaData *>> fields;
@@ -200,7 +220,9 @@ namespace
                        std::to_string(m->min_period()) + "]";
             case TSTypeKind::TSB:
             {
-                std::string out = m->is_named_tsb() ? "TSB<named>[" : "TSB[";
+                std::string out = m->is_named_tsb()
+                                      ? "TSB<" + std::string{m->bundle_name() != nullptr ? m->bundle_name() : "?"} + ">["
+                                      : std::string{"TSB["};
                 for (std::size_t i = 0; i < m->field_count(); ++i)
                 {
                     if (i != 0) { out += ","; }
@@ -301,6 +323,23 @@ namespace
             std::string name = c.ident();
             c.expect(']');
             return TypePattern::tsb_var(std::move(name));
+        }
+        if (c.eat("TSB<"))
+        {
+            // a named field-listing bundle pattern (what to_pattern<TSB<Name, Fields...>> lowers to)
+            std::string bundle = c.ident();
+            c.expect('>');
+            c.expect('[');
+            std::vector<std::string> names;
+            std::vector<TypePattern> children;
+            do
+            {
+                names.push_back(c.ident());
+                c.expect(':');
+                children.push_back(parse_tp(c));
+            } while (c.eat(','));
+            c.expect(']');
+            return TypePattern::tsb(std::move(names), std::move(children), std::move(bundle), true);
         }
         if (c.eat("TSB["))
         {
